@@ -158,3 +158,12 @@ pub const LEAP_DAYS: [(i128, i128, i128); 27] = [
     (1994, 6, 30), (1995, 12, 31), (1997, 6, 30), (1998, 12, 31), (2005, 12, 31), (2008, 12, 31),
     (2012, 6, 30), (2015, 6, 30), (2016, 12, 31),
 ];
+
+pub fn strict_valid(y: i128, mo: i128, d: i128, h: i128, mi: i128, s: i128, ns: i128) -> bool {
+    (1..=12).contains(&mo) && d >= 1 && d <= month_len(y, mo) && (0..24).contains(&h) && (0..60).contains(&mi) && (0..1_000_000_000).contains(&ns)
+        && ((0..60).contains(&s) || (s == 60 && h == 23 && mi == 59 && LEAP_DAYS.contains(&(y, mo, d))))
+}
+pub fn must_reject(y: i128, mo: i128, d: i128, h: i128, mi: i128, s: i128, ns: i128) -> bool {
+    mo < 1 || mo > 12 || d < 1 || d > month_len(y, mo) || h > 24 || mi > 59 || s > 60 || ns > 1_000_000_000
+        || (s == 60 && !(h == 23 && mi == 59 && (LEAP_DAYS.contains(&(y, mo, d)) || (y, mo, d) == (1971, 12, 31))))
+}
